@@ -281,6 +281,16 @@ func planC11(tier string, root *simcore.RNG) *plan {
 				}
 			}
 		}
+		// a share of the episodes runs on the -race build (parking is invisible
+		// to the race detector): all interleavings inside Write/Close that the
+		// seam-level schedule cannot produce are judged by happens-before
+		multi := false
+		for _, j := range sc.Groups[0] {
+			multi = multi || len(j.Batches) > 1
+		}
+		if (multi && r.Intn(2) == 0) || r.Intn(6) == 0 {
+			sc.Env.Race = true
+		}
 		id++
 		pl.scenarios = append(pl.scenarios, sc)
 	}
@@ -310,7 +320,7 @@ func planC11(tier string, root *simcore.RNG) *plan {
 	}
 	pl.rule = "episode = scripted Render3/Render2 emitting uniquely numbered items (seeded count, batch partition incl. empty/nil/over-threshold batches, 1..4 producer goroutines) or a real renderer behind a tap, through the real buffer/channel/consumer into one of ToTriangles/ToSTL/To3MF/ToDXF/ToSVG under a seeded schedule (fifo, lifo, uniform, pct, starve(consumer|renderer|producer i), burst) with a seeded subset of consumer hooks active; oracle = decoded sink equals what was written (sequence for one producer, multiset otherwise), evaluated inside the calling goroutine the moment the call returns and again at quiescence. Non-trivial = the scheduler had >= 2 parked goroutines to choose from at >= 1 step; distinct = distinct trace hash."
 	pl.assume = []string{
-		"interleaving is controlled at seam granularity (producer Write calls, consumer loop iterations, final flush/encode/save); code between two yields runs at full speed",
+		"interleaving is controlled at seam granularity (producer Write calls, consumer loop iterations, final flush/encode/save); code between two yields runs at full speed; interleavings inside Write/Close are judged by the race detector in the episodes that run on the -race build (about half of the multi-producer ones, a sixth of the rest)",
 		"file sinks are decoded by the harness's own STL/3MF(zip+xml)/DXF/SVG readers",
 	}
 	pl.real = []string{"sdf.Triangle3Buffer/Line2Buffer", "sdf.WriteTriangles", "render.ToTriangles/ToSTL/To3MF/ToDXF/ToSVG and their writer goroutines", "os file system (tmpfs/ext4 under $TMPDIR)", "real renderers in ~1/8 of the episodes"}
